@@ -98,6 +98,7 @@ type autoCache struct {
 	seen          chan string
 	unhook        func()
 	Events        map[string]int64 // events the watcher hook saw, by op string
+	Trace         []string         // the first 400 of them, in order ("OP path")
 	evMu          sync.Mutex
 	nEvents       atomic.Int64
 	SentinelsLost atomic.Int64
@@ -131,6 +132,9 @@ func newAutoCache(root, anchor string, dirs []string) (*autoCache, error) {
 		a.nEvents.Add(1)
 		a.evMu.Lock()
 		a.Events[opString(n)]++
+		if len(a.Trace) < 400 {
+			a.Trace = append(a.Trace, opString(n)+" "+arg)
+		}
 		a.evMu.Unlock()
 		if hp := a.hold.Load(); hp != nil && !strings.HasSuffix(arg, ".sentinel") {
 			<-*hp
@@ -303,6 +307,13 @@ func releaseCache(c *cdi.Cache) bool {
 		fmt.Fprintln(os.Stderr, "harness: Cache.Configure(WithAutoRefresh(false)) has not returned for 60 s; abandoning that cache")
 		return false
 	}
+}
+
+// EventTrace returns the events the watcher received, in order.
+func (a *autoCache) EventTrace() []string {
+	a.evMu.Lock()
+	defer a.evMu.Unlock()
+	return append([]string{}, a.Trace...)
 }
 
 func (a *autoCache) EventCounts() map[string]int64 {
